@@ -29,8 +29,8 @@ claim("C03", "One-step induction over request status: the real vehicle update (a
 claim("C05", "Per-step conservation decided over all paths of the real charge()/pick_up_trip()/instruction code with symbolic energy, price, balances and counters: "
       "energy gained == energy dispensed at the charging station, payment sent == received == tariff x energy, fares == request value, instructions move nothing.", _NOTE, "4/C05")
 claim("C07", "One-step induction: I-loc (stationary activity => at the target's cell; travelling route starts at the vehicle and ends at the target; pickup at origin, drop-off at destination) "
-      "is re-established by every instruction (13 activities x 16 instructions) and by every vehicle update, decided by the solver on the real code.", _NOTE, "4/C07")
-claim("C09", "For each of 13 previous activities x 16 instructions with symbolic counters/places/memberships/request records the real apply_instructions either yields the instructed "
+      "is re-established by every instruction (13 activities x 18 instructions) and by every vehicle update, decided by the solver on the real code.", _NOTE, "4/C07")
+claim("C09", "For each of 13 previous activities x 18 instructions with symbolic counters/places/memberships/request records the real apply_instructions either yields the instructed "
       "activity with its side effects and an exact frame (nothing but vehicle and old/new targets changes) or a state structurally equal to the pre-state (deep comparison, instance ids included); "
       "plus two-instruction independence and generator/driver precedence harnesses.", _NOTE, "4/C09")
 claim("C10", "One-step induction: after any instruction / default transition the activity's target grants access to the vehicle, over the 5x5 grid of vehicle x target memberships "
